@@ -875,6 +875,13 @@ def execute(trace, env=None):
             continue
         if present is not None and key[0] == 'n' and not name_ok(key):
             continue
+        # (a calculation restricted to outputs returns what those outputs
+        # need; which requested outputs EXIST may differ between a fresh
+        # root-book model and one that was finished again - a value that
+        # one side simply did not return is not a difference)
+        if (outs and got[key] == MISSING) or (fouts and
+                                              want[key] == MISSING):
+            continue
         if got[key] != want[key]:
             fail('C07.fresh', '%s = %s after the history but %s on a fresh '
                  'model with the same inputs' % (key, got[key], want[key]),
